@@ -61,16 +61,17 @@ func hostUUID(n int) string { return fmt.Sprintf("00000000-0000-0000-0000-000000
 const schemaVersion = "11111111-1111-1111-1111-111111111111"
 
 type sysnode struct {
-	cl         *vcluster
-	view       func() *cview // current view
-	self       string        // this node's ip
-	peersLog   *[]string     // appended: which view was served by a successful system.peers read
-	localLog   *[]string
-	failPeers  func() bool          // a system.peers read fails when this returns true
-	peersDelay func() time.Duration // virtual delay of the reply to a system.peers read (nil: none)
-	prepared   map[string]string
-	registered []*vnode.ServerConn
-	next       vnode.Handler
+	cl           *vcluster
+	view         func() *cview // current view
+	self         string        // this node's ip
+	peersLog     *[]string     // appended: which view was served by a successful system.peers read
+	localLog     *[]string
+	failPeers    func() bool                            // a system.peers read fails when this returns true
+	peersDelay   func() time.Duration                   // virtual delay of the reply to a system.peers read (nil: none)
+	optionsReply func(sc *vnode.ServerConn) interface{} // non-nil result: sent instead of SUPPORTED in reply to OPTIONS
+	prepared     map[string]string
+	registered   []*vnode.ServerConn
+	next         vnode.Handler
 }
 
 func textCol(ks, tb, name string) frame.ColumnSpec {
@@ -199,6 +200,11 @@ func (sn *sysnode) handler() vnode.Handler {
 // wrapRegister records connections that sent REGISTER so that events can be pushed to them.
 func (sn *sysnode) wrapRegister(h vnode.Handler) vnode.Handler {
 	return func(n *vnode.Node, sc *vnode.ServerConn, rec *vnode.ReqRec) vnode.Reply {
+		if _, ok := rec.Req.Msg.(*frame.Options); ok && sn.optionsReply != nil {
+			if m := sn.optionsReply(sc); m != nil {
+				return vnode.Reply{Msg: m}
+			}
+		}
 		if _, ok := rec.Req.Msg.(*frame.Register); ok {
 			sn.registered = append(sn.registered, sc)
 		}
